@@ -288,7 +288,19 @@ func (w *World) corrupt(b *Byz, m *Msg) {
 		if np > 0 {
 			pos = c.Choose(np, "corrupt.vec.pos")
 		}
-		switch pick(c, 13, "corrupt.vec") {
+		switch pick(c, 14, "corrupt.vec") {
+		case 13:
+			// a non-canonical encoding of the point at infinity: the infinity header followed by a
+			// non-zero byte somewhere in the body (first or second half)
+			if np > 0 {
+				inf := make([]byte, 96)
+				inf[0] = 0xC0
+				inf[1+c.Choose(95, "corrupt.vec.infbyte")] = byte(1 + c.Choose(255, "corrupt.vec.infval"))
+				copy(pl[96*pos:], inf)
+				how = "infinity-noncanonical"
+				break
+			}
+			pl, how = nil, "tagonly"
 		case 12:
 			// the point at infinity at some position, an invalid point right after it
 			if np >= 3 {
